@@ -11,20 +11,23 @@
 
 c05_cfg C5;
 ringbuf_t c5_rb;
-uint8_t c5_arena[64];
+uint8_t c5_arena[C5_ARENA_MAX];
+static int arena_len(void) { return 16 + C5.L + 48; }
 
 /* ghost state (hashed): the bytes successfully put and not yet got, and per-call entry snapshots */
 static struct {
-	uint8_t fifo[16]; uint8_t head, tail;	/* tail - head = occupancy (successful puts - successful gets) */
-	int8_t put_entry_occ, get_entry_occ, empty_entry_occ;
+	uint8_t fifo[16]; uint8_t head, tail;	/* scenario bytes: tail - head of them are unread */
+	uint32_t pre_left, pre_next;		/* bytes put by the set-up that are still unread, and the index of the oldest of them */
+	int32_t put_entry_occ, get_entry_occ, empty_entry_occ;
 } G;
 static uint64_t n_put_ok, n_put_fail, n_get_ok, n_get_fail, n_empty_true, n_empty_false;
 
 static const uint8_t valset[5] = { 0xff, 0x00, 0x80, 0x7f, 0x01 };
 uint8_t c5_value(int i) { return valset[i % 5]; }
-static int occ(void) { return (uint8_t)(G.tail - G.head); }
+static int occ(void) { return (int)G.pre_left + (uint8_t)(G.tail - G.head); }
+static uint8_t pre_value(uint32_t j) { return (uint8_t)(0x55 + j * 3); }
 
-void orc_put_begin(void) { G.put_entry_occ = (int8_t)occ(); }
+void orc_put_begin(void) { G.put_entry_occ = occ(); }
 void orc_put_end(int ok, uint8_t v)
 {
 	if (ok) {
@@ -39,7 +42,7 @@ void orc_put_end(int ok, uint8_t v)
 		if (G.put_entry_occ < C5.L - 1) vs_fail("put-fails-when-not-full", "put failed although at most %d (< buf_len-1 = %d) unread bytes were in the buffer at any instant during the call", G.put_entry_occ, C5.L - 1);
 	}
 }
-void orc_get_begin(void) { G.get_entry_occ = (int8_t)occ(); }
+void orc_get_begin(void) { G.get_entry_occ = occ(); }
 void orc_get_end(int r)
 {
 	if (r < 0) {
@@ -51,12 +54,12 @@ void orc_get_end(int r)
 		n_get_ok++;
 		vs_trace("get -> 0x%02x", r);
 		if (occ() == 0) vs_fail("get-from-empty", "get returned 0x%x but every byte put so far was already delivered (duplicate or invented byte)", r);
-		uint8_t exp = G.fifo[G.head & 15];
+		uint8_t exp = G.pre_left ? pre_value(G.pre_next) : G.fifo[G.head & 15];
 		if (r != exp) vs_fail("get-value", "get returned %d (0x%x), expected the next byte in put order 0x%02x as an unsigned value", r, r, exp);
-		G.head++;
+		if (G.pre_left) { G.pre_left--; G.pre_next++; } else G.head++;
 	}
 }
-void orc_empty_begin(void) { G.empty_entry_occ = (int8_t)occ(); }
+void orc_empty_begin(void) { G.empty_entry_occ = occ(); }
 void orc_empty_end(bool e)
 {
 	vs_trace("empty -> %d", e);
@@ -66,7 +69,7 @@ void orc_empty_end(bool e)
 
 static void check_arena(void)
 {
-	for (int i = 0; i < 64; i++) {
+	for (int i = 0; i < arena_len(); i++) {
 		if (i >= 16 && i < 16 + C5.L) continue;
 		if (c5_arena[i] != (uint8_t)(0xC0 + i)) vs_fail("out-of-bounds", "byte at offset %d relative to the caller's %d-byte storage was modified", i - 16, C5.L);
 	}
@@ -74,26 +77,30 @@ static void check_arena(void)
 static void scn_init(void)
 {
 	memset(&G, 0, sizeof(G));
-	for (int i = 0; i < 64; i++) c5_arena[i] = (uint8_t)(0xC0 + i);
+	for (int i = 0; i < arena_len(); i++) c5_arena[i] = (uint8_t)(0xC0 + i);
 	ringbuf_init(&c5_rb, C5_STORE, (size_t)C5.L);
 	vs_region(&c5_rb, sizeof(c5_rb), VS_SHARED, "rb");
-	vs_region(c5_arena, sizeof(c5_arena), VS_SHARED, "store-16");
+	vs_region(c5_arena, (size_t)arena_len(), VS_SHARED, "store-16");
 	vs_region(&G, sizeof(G), VS_GHOST, "ghost");
 	/* move both cursors to index k with real traffic */
 	for (int i = 0; i < C5.k; i++) {
-		if (!ringbuf_put(&c5_rb, (uint8_t)(0x30 + i))) vs_fail("setup", "sequential put refused on an empty ring");
+		if (!ringbuf_put(&c5_rb, (uint8_t)(0x30 + i))) vs_fail("setup", "sequential put refused on an empty ring (after %d put/get pairs)", i);
 		int r = ringbuf_get(&c5_rb);
-		if (r != 0x30 + i) vs_fail("setup", "sequential put/get returned %d, expected %d", r, 0x30 + i);
+		if (r != (uint8_t)(0x30 + i)) vs_fail("setup", "sequential put/get pair %d returned %d, expected %d", i, r, (uint8_t)(0x30 + i));
 	}
+	/* ... and leave `fill` unread bytes in it */
+	for (int j = 0; j < C5.fill; j++)
+		if (!ringbuf_put(&c5_rb, pre_value((uint32_t)j))) vs_fail("setup", "sequential put number %d refused although only %d of the %d bytes a ring of length %d holds were unread", j, j, C5.L - 1, C5.L);
+	G.pre_left = (uint32_t)C5.fill; G.pre_next = 0;
 }
 static void scn_end(void)
 {
 	/* quiescence: everything still in the ring comes out in order, then the ring is empty */
 	while (occ()) {
 		int r = ringbuf_get(&c5_rb);
-		uint8_t exp = G.fifo[G.head & 15];
+		uint8_t exp = G.pre_left ? pre_value(G.pre_next) : G.fifo[G.head & 15];
 		if (r != exp) vs_fail("lost-or-corrupt", "after quiescence get returned %d, expected the unread byte 0x%02x", r, exp);
-		G.head++;
+		if (G.pre_left) { G.pre_left--; G.pre_next++; } else G.head++;
 	}
 	if (!ringbuf_empty(&c5_rb) || ringbuf_get(&c5_rb) != -1) vs_fail("extra-byte", "after every put byte was delivered the ring is still not empty");
 	check_arena();
@@ -105,7 +112,7 @@ static void build(const c05_cfg *c)
 {
 	C5 = *c;
 	memset(&S, 0, sizeof(S));
-	snprintf(sname, sizeof(sname), "topo%d-L%d-k%d-n%d-p%d-c%d-m%d", c->topo, c->L, c->k, c->n, c->pmode, c->cmode, c->m);
+	snprintf(sname, sizeof(sname), "topo%d-L%d-k%d-n%d-p%d-c%d-m%d-f%d", c->topo, c->L, c->k, c->n, c->pmode, c->cmode, c->m, c->fill);
 	S.name = sname; S.init = scn_init; S.at_end = scn_end; S.horizon = 4000; S.max_nesting = 1;
 	if (c->topo == 0) {
 		S.nthreads = 2; S.thread_fn[0] = c5_producer; S.thread_fn[1] = c5_consumer;
@@ -126,20 +133,33 @@ static c05_cfg cfgs[4096]; static int ncfg;
 static void enumerate(void)
 {
 	int maxL = vx_thorough() ? 6 : 4, maxn = vx_thorough() ? 5 : 4;
+	/* rings longer than 65536 bytes with the indices about to pass 65535 ("every buffer length": an index type narrower than
+	 * the length would wrap here); the start index is reached by that many real put/get pairs */
+	static const int bigL[] = { 65537, 65540, 65536 };
+	for (unsigned b = 0; b < (vx_thorough() ? 3u : 2u); b++)
+		for (int k = 65534; k <= 65536 && k < bigL[b]; k++) {
+			int L = bigL[b];
+			cfgs[ncfg++] = (c05_cfg){ L, k, 2, P_GIVEUP, C_FIXED, 2, 0, 0 };
+			cfgs[ncfg++] = (c05_cfg){ L, k, 2, P_RETRY, C_UNTIL, 0, 0, 0 };
+			/* nearly full and full: the put that must fail, and the one that must not */
+			cfgs[ncfg++] = (c05_cfg){ L, k, 2, P_GIVEUP, C_FIXED, 2, L - 2, 0 };
+			if (k == 65535) cfgs[ncfg++] = (c05_cfg){ L, k, 2, P_GIVEUP, C_FIXED, 2, L - 1, 0 };
+			if (vx_thorough()) { cfgs[ncfg++] = (c05_cfg){ L, k, 3, P_GIVEUP, C_FIXED, 3, 0, 1 }; cfgs[ncfg++] = (c05_cfg){ L, k, 3, P_GIVEUP, C_FIXED, 3, 0, 2 }; }
+		}
 	for (int L = 2; L <= maxL; L++) for (int k = 0; k < L; k++) for (int n = 1; n <= maxn; n++) {
 		/* two free-running threads */
-		cfgs[ncfg++] = (c05_cfg){ L, k, n, P_RETRY, C_UNTIL, 0, 0 };
-		cfgs[ncfg++] = (c05_cfg){ L, k, n, P_PUTCHAR, C_UNTIL, 0, 0 };
-		cfgs[ncfg++] = (c05_cfg){ L, k, n, P_GIVEUP, C_FIXED, n, 0 };
-		if (n > 1) cfgs[ncfg++] = (c05_cfg){ L, k, n, P_GIVEUP, C_FIXED, n - 1, 0 };
+		cfgs[ncfg++] = (c05_cfg){ L, k, n, P_RETRY, C_UNTIL, 0, 0, 0 };
+		cfgs[ncfg++] = (c05_cfg){ L, k, n, P_PUTCHAR, C_UNTIL, 0, 0, 0 };
+		cfgs[ncfg++] = (c05_cfg){ L, k, n, P_GIVEUP, C_FIXED, n, 0, 0 };
+		if (n > 1) cfgs[ncfg++] = (c05_cfg){ L, k, n, P_GIVEUP, C_FIXED, n - 1, 0, 0 };
 		/* consumer in the main context, producer in interrupt handlers */
-		cfgs[ncfg++] = (c05_cfg){ L, k, n, P_GIVEUP, C_FIXED, n, 1 };
-		cfgs[ncfg++] = (c05_cfg){ L, k, n, P_GIVEUP, C_FIXED, n + 1, 1 };
-		if (n <= 3) cfgs[ncfg++] = (c05_cfg){ L, k, n, P_PUTCHAR, C_FIXED, n, 1 };
+		cfgs[ncfg++] = (c05_cfg){ L, k, n, P_GIVEUP, C_FIXED, n, 0, 1 };
+		cfgs[ncfg++] = (c05_cfg){ L, k, n, P_GIVEUP, C_FIXED, n + 1, 0, 1 };
+		if (n <= 3) cfgs[ncfg++] = (c05_cfg){ L, k, n, P_PUTCHAR, C_FIXED, n, 0, 1 };
 		/* producer in the main context, consumer in interrupt handlers */
-		cfgs[ncfg++] = (c05_cfg){ L, k, n, P_GIVEUP, C_FIXED, n, 2 };
-		cfgs[ncfg++] = (c05_cfg){ L, k, n, P_PUTCHAR, C_FIXED, n, 2 };
-		cfgs[ncfg++] = (c05_cfg){ L, k, n, P_RETRY, C_FIXED, n > 1 ? n - 1 : 1, 2 };
+		cfgs[ncfg++] = (c05_cfg){ L, k, n, P_GIVEUP, C_FIXED, n, 0, 2 };
+		cfgs[ncfg++] = (c05_cfg){ L, k, n, P_PUTCHAR, C_FIXED, n, 0, 2 };
+		cfgs[ncfg++] = (c05_cfg){ L, k, n, P_RETRY, C_FIXED, n > 1 ? n - 1 : 1, 0, 2 };
 	}
 }
 
@@ -158,7 +178,7 @@ int main(int argc, char **argv)
 	if (rp) {
 		const char *sn = vx_replay_field(rp, "scenario");
 		c05_cfg c;
-		if (sn && sscanf(sn, "topo%d-L%d-k%d-n%d-p%d-c%d-m%d", &c.topo, &c.L, &c.k, &c.n, &c.pmode, &c.cmode, &c.m) == 7) {
+		if (sn && sscanf(sn, "topo%d-L%d-k%d-n%d-p%d-c%d-m%d-f%d", &c.topo, &c.L, &c.k, &c.n, &c.pmode, &c.cmode, &c.m, &c.fill) == 8) {
 			build(&c);
 			const char *fg = vx_replay_field(rp, "fine_grained");
 			if (fg && fg[0] == '1') { O.fine_grained = 1; O.race_detect = 0; }
